@@ -4,6 +4,7 @@
 # usage: tools/determinism.sh <binary> <prop> [nseeds]
 set -e
 cd "$(dirname "$0")/.."
+tools/build.sh build/$1 || exit 2
 BIN=build/$1; PROP=$2; N=${3:-300}
 export SIM_KNOWN=$(python3 -c "import json;print(','.join(k['id'] for k in json.load(open('known_findings.json'))['findings'] if k.get('status')=='finding' and k.get('id')))")
 export SIM_SCRATCH=$PWD/build/scratch/det$$; mkdir -p $SIM_SCRATCH
